@@ -329,7 +329,8 @@ def bind_rule(cx, rid_bind="C08-BIND", rid_map="C08-MAP", only=None, floor=300):
                             if got == "<unset>":
                                 # dataclass default applies
                                 continue
-                            if got is UNK:
+                            if got is UNK or (isinstance(got, list) and f"{cls}.{f}" in VALUE_FIELDS):
+                                # (a list assembled element by element from evaluated values is value-level, not binding)
                                 undecided.append(f"{cls}.{f}")
                                 continue
                             if isinstance(want, Tok):
